@@ -80,6 +80,11 @@ def make_world(spec):
     w.phig = pf.CellVariable(m, U.generic_array(tuple(k + 2 for k in dims), tag=115, signed=True))
     assert not (w.phig.BCs.modified or w.phig.value.modified)
     w.phim = pf.solveMatrixPDE(m, w.Mfull, w.rfull)
+    # a coefficient field with exact zeros (an impermeable layer): first cell, last cell, every third one
+    z = np.array(U.generic_array(dims, tag=117))
+    z.flat[::3] = 0.0
+    z.flat[-1] = 0.0
+    w.beta0 = pf.CellVariable(m, z)
     return w
 
 
@@ -100,6 +105,8 @@ MENU = {
     "arithmeticMean": lambda w: pf.arithmeticMean(w.phi),
     "geometricMean": lambda w: pf.geometricMean(w.phi),
     "harmonicMean": lambda w: pf.harmonicMean(w.phi),
+    "means_of_field_with_zeros": lambda w: (pf.harmonicMean(w.beta0), pf.geometricMean(w.beta0), pf.arithmeticMean(w.beta0),
+                                            pf.linearMean(w.beta0), pf.upwindMean(w.beta0, w.u)),
     "upwindMean": lambda w: pf.upwindMean(w.phi, w.u),
     "boundaryConditionsTerm": lambda w: pf.boundaryConditionsTerm(w.bc),
     "cellLocations": lambda w: pf.cellLocations(w.mesh),
@@ -133,7 +140,7 @@ PURE = [n for n in ("diffusionTerm", "convectionTerm", "convectionUpwindTerm", "
                     "convectionTVDupwindRHSTerm", "linearSourceTerm", "constantSourceTerm", "transientTerm", "transientTerm_alpha",
                     "gradientTerm", "gradientTermFixedBC", "divergenceTerm", "linearMean", "arithmeticMean", "geometricMean",
                     "harmonicMean", "upwindMean", "boundaryConditionsTerm", "cellLocations", "faceLocations", "copy",
-                    "gradientTerm_ghosts", "transientTerm_ghosts", "copy_ghosts",
+                    "gradientTerm_ghosts", "transientTerm_ghosts", "copy_ghosts", "means_of_field_with_zeros",
                     "arith", "celleval", "faceeval")]
 
 
@@ -160,7 +167,7 @@ def arrays_of(obj, prefix, out, depth=0):
 
 def world_arrays(w, skip=()):
     out = []
-    for name in ("mesh", "D", "u", "u2", "bc", "phi", "sol", "beta", "M", "v", "Mfull", "rfull", "rhs_expl", "phig", "phim"):
+    for name in ("mesh", "D", "u", "u2", "bc", "phi", "sol", "beta", "M", "v", "Mfull", "rfull", "rhs_expl", "phig", "phim", "beta0"):
         if name in skip:
             continue
         arrays_of(getattr(w, name), name, out)
@@ -170,7 +177,7 @@ def world_arrays(w, skip=()):
 def flags_of(w):
     """Non-array state: dirty bits and periodic flags."""
     out = []
-    for name in ("phi", "sol", "beta", "phig", "phim"):
+    for name in ("phi", "sol", "beta", "phig", "phim", "beta0"):
         v = getattr(w, name)
         out.append((name, bool(v._value.modified), bool(v.BCs.modified),
                     tuple(bool(getattr(v.BCs, s).periodic) for s in ("left", "right", "bottom", "top", "back", "front")),
@@ -493,8 +500,12 @@ def run_case(case):
         for name in MENU:
             wa, wb = make_world(case["other"]), make_world(spec)
             try:
-                MENU[name](wa)
+                ra = MENU[name](wa)         # the OLDER mesh is used after the newer one was built
                 r = MENU[name](wb)
+                if fingerprint(ra) != reference(case["other"], name):
+                    F.append({"key": "C15:cross_mesh_older:%s" % name,
+                              "msg": "%s on %s is not bit-identical to a fresh session once a second mesh (%s) has been built"
+                                     % (name, U.spec_id(case["other"]), gid), "detail": {"grid": U.spec_id(case["other"]), "other": gid}})
             except Exception as e:  # noqa: BLE001
                 F.append({"key": "C15:cross_mesh_exception:%s" % name, "msg": "%s on %s after the same call on %s raises %s: %s"
                           % (name, gid, U.spec_id(case["other"]), type(e).__name__, str(e)[:100]), "detail": {}})
